@@ -102,7 +102,7 @@ func cascOneRegion(p *mgrPkg, typ, method, list string, mutexes map[string]bool,
 
 // names of all methods / functions called (selector or plain identifier) in the body of fd, with the functions of the
 // package that are called by name inlined up to `depth` levels (name-based, over-approximating: every declaration with
-// that name)
+// that name; the clean-up operations themselves and the event bus are not looked into)
 func cascCalls(p *mgrPkg, body ast.Node, depth int, seen map[string]bool, out map[string]int) {
 	ast.Inspect(body, func(n ast.Node) bool {
 		c, ok := n.(*ast.CallExpr)
@@ -123,8 +123,8 @@ func cascCalls(p *mgrPkg, body ast.Node, depth int, seen map[string]bool, out ma
 		if depth > 0 && !seen[name] {
 			seen[name] = true
 			for key, fd := range p.funcs {
-				if (key == name || strings.HasSuffix(key, "."+name)) && fd.Body != nil && !ast.IsExported(name) {
-					// unexported helpers of the package are looked through; exported methods are the operations themselves
+				if (key == name || strings.HasSuffix(key, "."+name)) && fd.Body != nil && !cascStop[name] {
+					// helpers and wrappers of the package are looked through; the operations themselves are not
 					cascCalls(p, fd.Body, depth-1, seen, out)
 				}
 			}
@@ -132,6 +132,9 @@ func cascCalls(p *mgrPkg, body ast.Node, depth int, seen map[string]bool, out ma
 		return true
 	})
 }
+
+var cascStop = map[string]bool{"RemoveEntityByAddress": true, "RemoveSubscriptionsForEntity": true, "RemoveBindingsForEntity": true,
+	"CleanRemoteEntityCaches": true, "Publish": true}
 
 func genCascade(outDir string) (string, error) {
 	var notes []string
